@@ -523,7 +523,7 @@ func mkCase(s Spec, in []byte, rt, store bool) Case {
 // TestC18Analyzers: the 24 bundled analyzers, all clauses incl. the round trip.
 func TestC18Analyzers(t *testing.T) {
 	names := analyzerNames()
-	vlib.Check(t, 9000, 40000, func(rt *rapid.T) {
+	vlib.Check(t, 9000, 30000, func(rt *rapid.T) {
 		name := pickFrom(rt, "analyzer", names)
 		tx := genText(rt)
 		c := mkCase(Spec{Kind: "analyzer", Analyzer: name}, tx.Bytes, pick(rt, "rt", 6) == 0, rapid.Bool().Draw(rt, "store"))
@@ -535,7 +535,7 @@ func TestC18Analyzers(t *testing.T) {
 
 // TestC18Tokenizers: each bundled tokenizer on its own; Term == input[Start:End].
 func TestC18Tokenizers(t *testing.T) {
-	vlib.Check(t, 2500, 15000, func(rt *rapid.T) {
+	vlib.Check(t, 2500, 10000, func(rt *rapid.T) {
 		tx := genText(rt)
 		tk := genTokenizer(rt)
 		c := mkCase(Spec{Kind: "tokenizer", Tokenizer: &tk}, tx.Bytes, pick(rt, "rt", 10) == 0, rapid.Bool().Draw(rt, "store"))
@@ -547,7 +547,7 @@ func TestC18Tokenizers(t *testing.T) {
 
 // TestC18CharFilters: char filters (one or two) in front of a tokenizer.
 func TestC18CharFilters(t *testing.T) {
-	vlib.Check(t, 1500, 10000, func(rt *rapid.T) {
+	vlib.Check(t, 1500, 6000, func(rt *rapid.T) {
 		tx := genText(rt)
 		tk := genTokenizer(rt)
 		n := 1
@@ -571,7 +571,7 @@ func TestC18CharFilters(t *testing.T) {
 // TestC18Filters: one token filter with generated parameters on the stream of a tokenizer
 // (optionally behind a char filter and a gap-making/marking stage); all clauses.
 func TestC18Filters(t *testing.T) {
-	vlib.Check(t, 6000, 40000, func(rt *rapid.T) {
+	vlib.Check(t, 6000, 30000, func(rt *rapid.T) {
 		tx := genText(rt)
 		tk := genTokenizer(rt)
 		s := Spec{Kind: "filter", Tokenizer: &tk}
@@ -603,7 +603,7 @@ func TestC18Filters(t *testing.T) {
 // TestC18Pipelines: 2-4 token filters behind a tokenizer and 0-2 char filters; judged for
 // totality, determinism, increments and the round trip, not for offsets.
 func TestC18Pipelines(t *testing.T) {
-	vlib.Check(t, 2000, 15000, func(rt *rapid.T) {
+	vlib.Check(t, 2000, 10000, func(rt *rapid.T) {
 		tx := genText(rt)
 		tk := genTokenizer(rt)
 		s := Spec{Kind: "pipeline", Tokenizer: &tk}
